@@ -101,7 +101,8 @@ class Interp:
         self.g.setdefault('isinstance', self._isinstance)
         self.g.setdefault('getattr', lambda o, n, d=MISSING: self._getattr(o, n, d))
         self.g.setdefault('setattr', setattr)
-        self.g.setdefault('hasattr', lambda o, n: self._getattr(o, n, MISSING) is not MISSING)
+        _absent = object()
+        self.g.setdefault('hasattr', lambda o, n: self._getattr(o, n, _absent) is not _absent)
         self.g.setdefault('None', None)
         for nm, f in dict(all=all, any=any, tuple=tuple, dict=dict, set=set, frozenset=frozenset, sorted=sorted,
                           zip=zip, enumerate=enumerate, map=map,
